@@ -31,8 +31,9 @@ CHECKS = {
             "within a fault budget; every maximal behaviour replayed through the real topology API over an instrumented order-sensitive VDAF",
             "Exhaustive (bounded) model checking of the leader/helper state machines for R=1..4 rounds against replayed, duplicated, re-typed, cross-round and "
             "undecodable messages, with all maximal behaviours (>15k quick, >150k thorough) replayed on the real code: continuation kind, error kind, state, "
-            "outbound message, combiner order and released share compared after every action; continuations encoded/decoded/re-evaluated at every step.",
-            "Bounds: rounds <= 4, adversarial deliveries <= 1..3, behaviour length <= 8; the VDAF under the topology is the harness's instrumented one."),
+            "outbound message, combiner order and released share compared after every action; continuations encoded/decoded/re-evaluated at every step, every outbound "
+            "message through its wire encoding; the R=1 / R=2 behaviours also over real Prio3 (incl. two proofs and 67 KiB verifier shares) and real Poplar1.",
+            "Bounds: rounds <= 4, adversarial deliveries <= 1..3, behaviour length <= 8; R >= 3 only over the harness's instrumented VDAF."),
     "C20": ("DESIGN.md#c20--aggregation-parameter-admissibility",
             "TLA+ spec of the admissibility rule, well-formedness and wire format (AggParam.tla); TLC enumerates all parameters/histories for small bit lengths "
             "and all constructor/decoder inputs; verdicts replayed against Poplar1/Prio3/Prio2",
@@ -69,33 +70,36 @@ CHECKS = {
             "Poplar1 clause under C03; pairs are consecutive lattice elements, not all pairs."),
     "C18": ("DESIGN.md#c18--reports-are-bound-to-context-nonce-role-and-key",
             "Prio3 trace spec with exact XOF query tuples (structural binding) + mismatch lattice executed on real code with exact verdicts recomputed by TLC",
-            "Structural: every derivation must query exactly (seed, version|class|alg id|usage|ctx, binder) as the spec prescribes or the trace is rejected. "
-            "Behavioural: ctx/nonce/key/id mismatches at one or all aggregators with TLC-computed exact verdicts incl. the documented nonce exception.",
+            "Structural: every derivation must query exactly (seed, version|class|alg id|usage|ctx, binder) as the spec prescribes or the trace is rejected (contexts of up to "
+            "299 bytes). Behavioural: ctx/nonce/key/id/algorithm-id mismatches at one or all aggregators with TLC-computed exact verdicts incl. the documented nonce "
+            "exception. XOF level: distinct (seed, tag, binder) never share a stream prefix on any XOF family.",
             "Tiny-field instantiations; Poplar1 binding under C03/C04."),
     "C10": ("DESIGN.md#c10--ntt-and-lagrange-routines-equal-their-definitions",
             "TLA+ definitions of the transforms and Lagrange routines by direct evaluation/interpolation (Ntt.tla); TLC computes full matrices on the unit "
             "basis; replay through hook H2 on tiny fields; size/capacity verdict tables on tiny and deployed fields",
             "Linearity makes basis comparison complete per size: for each power-of-two size up to 16 (GF(17)), 64 (GF(193)) resp. 128 every (or 8) basis vectors of "
             "every routine are compared element by element with values TLC computes from the definitions; error classes at the size/capacity boundaries are "
-            "compared on all fields.",
-            "Tiny-field monomorphizations of the generic routines; sizes above 128 only at error boundaries."),
+            "compared on all fields, incl. doubling / Lagrange multiplication at 2^17..2^20 evaluations on the deployed fields.",
+            "Tiny-field monomorphizations of the generic routines; sizes above 128 only at error boundaries and constant polynomials."),
     "C11": ("DESIGN.md#c11--seed-streams-and-field-sampling",
             "TLA+ refinement check of the Prng look-ahead buffer machine against the abstract rejection sampler (Prng.tla, TLC exhaustive); TLC-generated "
             "sampling scripts replayed on the real Prng/IntoFieldVec (hook H3); XOF chunking scripts executed on the real XOFs and trace-validated as one function",
             "Exhaustive refinement check of the buffer/leftover/field-switch logic at small sizes; scripted rejections at every buffer position and across refills "
-            "on all seven fields with expected elements from TLC; every tag/binder split and boundary-straddling read sequence on all XOF families validated by TLC.",
+            "on all seven fields with expected elements from TLC; every tag/binder split (incl. zero parts), boundary-straddling and word-sized (next_u32/next_u64) read sequence "
+            "on all XOF families validated by TLC as views of one function that separates distinct (seed, tag, binder).",
             "XOF primitives are oracles; buffer size 32 in the implementation vs 3 in the exhaustive model (the scripts cover the real size)."),
     "C07": ("DESIGN.md#c07--canonical-round-tripping-length-exact-encodings",
             "TLA+ total decoders for every wire format (Codec.tla grammar interpreter); TLC enumerates honest-shaped and deviating strings with verdicts; replay on "
             "the real decoders comparing verdict, canonical re-encoding and encoded_len",
             "Every message type x decoding parameter instance is exercised with model-judged strings covering each non-canonical form named in the property; the "
-            "real decoder must agree with the model's verdict on every string, and every accepted string must re-encode to itself with the advertised length.",
+            "real decoder must agree with the model's verdict on every string, and every accepted string must re-encode to itself with the advertised length; each decoder is "
+            "also run in its cursor form inside a larger buffer (consumed length = Codec!DecLen) and each encoder into a non-empty buffer.",
             "Instances and deviations are enumerated, not all byte strings; field canonicity judged through limb arithmetic (BigNat.tla)."),
     "C08": ("DESIGN.md#c08--total-decoders",
             "Same total-decoder spec; structured extremes + seeded random mutations run on the real decoders under catch_unwind / counting allocator / clock, and "
             "trace-validated by TLC against Codec!Dec (verdict, canonicity, allocation envelope)",
             "Each of >4k structured strings and >4k (quick) / >40k (thorough) random mutations is decoded by the real code with panics, arithmetic overflow "
-            "(dev profile), allocation volume and time observed, and judged by TLC.",
+            "(dev profile), allocation volume and time observed, and judged by TLC; whole-message and cursor-form decoding of every string.",
             "Totality is observed on the explored inputs; the allocation envelope constant (64x + 16 KiB) is part of the spec."),
     "C16": ("DESIGN.md#c16--fallible-public-operations-reject-bad-arguments-with-errors",
             "TLA+ argument-domain predicates per constructor/operation over exact big integers (ApiDomain.tla); TLC judges every case of the boundary lattice; "
@@ -139,7 +143,8 @@ CHECKS = {
             "TLA+ transcription of the CKS20 samplers as tape transducers (DpSamplers.tla); TLC enumerates every random tape up to a depth bound; each complete "
             "tape replayed on the real sampler layers (hook H6); exact path masses checked against the defining laws; noise addition replayed with TLC-computed sums",
             "Every tape of up to 8 (quick) / 10 (thorough) draws for 34 layer/parameter pairs: functional equivalence of the real samplers with the model on all of "
-            "them (outcome and consumed randomness), and the law of each layer bracketed exactly by explored mass and residual.",
+            "them (outcome and consumed randomness), and the law of each layer bracketed exactly by explored mass and residual; noise addition with TLC-computed sums, "
+            "BigNat-verified scales for bounds up to 2^127+1, and noise of magnitude >= p over GF(17).",
             "Exactness up to the reported residual mass; small rational parameters."),
 }
 
